@@ -314,7 +314,14 @@ def build():
     u.include("spec/entries.rs")
     u.include("shims/io.rs")
     config_types(u)
-    u.include("shims/driver_stubs.rs")
+    u.include("shims/driver_stubs_core.rs")
+    u.include("shims/walk.rs")
+    from . import u_finder
+    _tmpf = Unit("tmpf")
+    _fn = u_finder.finder_new(_tmpf)
+    u.raw("verus! {\nimpl<'ctx> CodeFinder<'ctx> {\n")
+    u.stub_of(_fn, note="CodeFinder::new: contract proved in unit `finder`")
+    u.raw("}\n}\n")
     # the lock writer's contract, exactly as proved in unit `context`
     from . import u_context
     tmp = Unit("tmp")
